@@ -6,8 +6,12 @@ pub mod bitvec { include!("bitvec.rs"); }
 pub mod shims {
     // reduced stand-ins for types the null-map code only stores (hand-written, listed as trusted glue)
     #[derive(Default, Clone, Debug)]
-    pub struct StringColBuffer { pub values: Vec<String> }
-    impl StringColBuffer { pub fn push(&mut self, s: &str) { self.values.push(s.to_string()); } }
+    pub struct StringColBuffer { pub values: Vec<Sv> }
+    impl StringColBuffer { pub fn push(&mut self, _s: &str) { self.values.push(Sv); } }
+    // a stored string, without formatting machinery (the unreachable String -> Mixed arm calls s.to_string())
+    #[derive(Default, Clone, Debug)]
+    pub struct Sv;
+    impl Sv { pub fn to_string(&self) -> String { String::new() } }
     #[derive(Debug, Clone, PartialEq)]
     pub enum RawVal { Int(i64), Float(ordered_float::OrderedFloat<f64>), Str(String), Null }
 }
@@ -32,85 +36,78 @@ mod proofs {
         }
     }
 
-    // one symbolic operation of at most `maxn` rows; updates the buffer and the reference model (None = NULL)
-    fn step(cb: &mut ColumnBuffer, model: &mut [Option<i64>; 16], len: &mut usize, maxn: usize) {
-        let n: usize = kani::any();
-        kani::assume(n <= maxn);
-        if kani::any() {
-            cb.push_nulls(n);
-            for _ in 0..n { model[*len] = None; *len += 1; }
-        } else {
-            let vals: [i64; MAXN] = kani::any();
-            let with_map: bool = kani::any();
-            let map: [u8; 2] = kani::any();
-            cb.push_ints(vals[..n].iter().copied(), if with_map { Some(&map[..]) } else { None });
-            for k in 0..n {
-                let present = !with_map || BitVec::is_set(&map[..], k);
-                model[*len] = if present { Some(vals[k]) } else { None };
-                *len += 1;
-            }
-        }
-    }
-
-    fn check(cb: &ColumnBuffer, model: &[Option<i64>; 16], len: usize) {
-        assert!(cb.len() == len, "[row-count] number of rows equals the number supplied");
+    fn check<const M: usize>(cb: &ColumnBuffer, model: &[Option<i64>; M]) {
+        assert!(cb.len() == M, "[row-count] number of rows equals the number supplied");
         let i: usize = kani::any();
-        kani::assume(i < len);
+        kani::assume(i < M);
         assert!(null_at(cb, i) == model[i].is_none(), "[null-exactly-where-missing] row is NULL exactly where no value was supplied");
         if let (TypedBuffer::Int(b), Some(v)) = (&cb.buffer, model[i]) {
             assert!(b.data[i] == v, "[value-kept] integer value equals what was supplied");
         }
         if let Some(p) = &cb.present {
             let j: usize = kani::any();
-            kani::assume(j >= len && j < 64);
+            kani::assume(j >= M && j < 32);
             assert!(!BitVec::is_set(p, j), "[no-stray-bits] no presence bit beyond the last row");
         }
     }
 
-    // first operation of exactly N rows (N fixed per harness: lengths around the byte boundary of the bitmap),
-    // then a second operation of at most 2 rows
-    fn scenario<const N: usize>() {
+    // N values without null map, then one value with a null map (the path compaction takes when an earlier partition was dense)
+    fn dense_then_mapped<const N: usize, const M: usize>() {
         let mut cb = ColumnBuffer::null(0);
-        let mut model = [None; 16];
-        let mut len = 0;
-        if kani::any() {
-            cb.push_nulls(N);
-            len = N;
-        } else {
-            let vals: [i64; N] = kani::any();
-            let with_map: bool = kani::any();
-            let map: [u8; 2] = kani::any();
-            cb.push_ints(vals.iter().copied(), if with_map { Some(&map[..]) } else { None });
-            for k in 0..N {
-                let present = !with_map || BitVec::is_set(&map[..], k);
-                model[k] = if present { Some(vals[k]) } else { None };
-            }
-            len = N;
-        }
-        step(&mut cb, &mut model, &mut len, 2);
-        check(&cb, &model, len);
+        let vals: [i64; N] = kani::any();
+        cb.push_ints(vals.iter().copied(), None);
+        let v: i64 = kani::any();
+        let map: [u8; 1] = kani::any();
+        cb.push_ints([v], Some(&map[..]));
+        let mut model = [None; M];
+        for k in 0..N { model[k] = Some(vals[k]); }
+        model[N] = if BitVec::is_set(&map[..], 0) { Some(v) } else { None };
+        check::<M>(&cb, &model);
     }
     #[kani::proof]
-    #[kani::unwind(12)]
-    fn first_op_3_rows() { scenario::<3>(); }
+    #[kani::unwind(11)]
+    fn dense3_then_mapped() { dense_then_mapped::<3, 4>(); }
     #[kani::proof]
-    #[kani::unwind(12)]
-    fn first_op_8_rows() { scenario::<8>(); }
-    #[kani::proof]
-    #[kani::unwind(12)]
-    fn first_op_9_rows() { scenario::<9>(); }
+    #[kani::unwind(11)]
+    fn dense8_then_mapped() { dense_then_mapped::<8, 9>(); }
 
-    // a column first seen after n0 rows (all NULL so far), then one operation
-    #[kani::proof]
-    #[kani::unwind(12)]
-    fn null_prefix_then_op() {
-        let n0: usize = if kani::any() { 3 } else { 8 };
-        let mut cb = ColumnBuffer::null(n0);
-        let mut model = [None; 16];
-        let mut len = n0;
-        step(&mut cb, &mut model, &mut len, 2);
-        check(&cb, &model, len);
+    // N values, then a NULL (the bitmap is created at length N: byte boundary cases 7 / 8 / 9)
+    fn dense_then_null<const N: usize, const M: usize>() {
+        let mut cb = ColumnBuffer::null(0);
+        let vals: [i64; N] = kani::any();
+        cb.push_ints(vals.iter().copied(), None);
+        cb.push_nulls(1);
+        let mut model = [None; M];
+        for k in 0..N { model[k] = Some(vals[k]); }
+        check::<M>(&cb, &model);
     }
+    #[kani::proof]
+    #[kani::unwind(11)]
+    fn dense7_then_null() { dense_then_null::<7, 8>(); }
+    #[kani::proof]
+    #[kani::unwind(11)]
+    fn dense8_then_null() { dense_then_null::<8, 9>(); }
+    #[kani::proof]
+    #[kani::unwind(11)]
+    fn dense9_then_null() { dense_then_null::<9, 10>(); }
+
+    // a column first seen after N rows, then values with a null map
+    fn late_column<const N: usize, const M: usize>() {
+        let mut cb = ColumnBuffer::null(N);
+        let vals: [i64; 2] = kani::any();
+        let map: [u8; 1] = kani::any();
+        let with_map: bool = kani::any();
+        cb.push_ints(vals.iter().copied(), if with_map { Some(&map[..]) } else { None });
+        let mut model = [None; M];
+        for k in 0..2 { model[N + k] = if !with_map || BitVec::is_set(&map[..], k) { Some(vals[k]) } else { None }; }
+        check::<M>(&cb, &model);
+    }
+    #[kani::proof]
+    #[kani::unwind(11)]
+    fn late_column_after_3() { late_column::<3, 5>(); }
+    #[kani::proof]
+    #[kani::unwind(11)]
+    fn late_column_after_8() { late_column::<8, 10>(); }
 
     #[kani::proof]
     fn vx_canary() {
